@@ -437,7 +437,87 @@ mod verif_driver_compile {
                 witness("c14_cardano/compute_script_data_hash#reachable-panic", "compute_script_data_hash", format!("cost_models={models:?} (no redeemers)"), format!("panic:{p}"), "Ok or Err");
             }
         }
+        // with a redeemer: the cost model of the inferred language (Plutus V3 = id 2 when no script is attached) must be
+        // present, otherwise Err (never a panic)
+        for models in [vec![], vec![0u8], vec![1u8], vec![2u8], vec![0, 1], vec![0, 1, 2]] {
+            n += 1;
+            let pparams = PParams {
+                network: Network::Testnet, min_fee_coefficient: 1, min_fee_constant: 1, coins_per_utxo_byte: 1,
+                cost_models: models.iter().map(|v| (*v, vec![0i64; 10])).collect(),
+            };
+            let mut tx = empty_tx();
+            tx.mints = vec![tir::Mint { amount: tir::Expression::Assets(vec![token(28, 5)]), redeemer: tir::Expression::Struct(tir::StructExpr { constructor: 0, fields: vec![] }) }];
+            match quiet(|| entry_point(&tx, &pparams).map(|t| t.transaction_body.script_data_hash.is_some())) {
+                Err(p) => witness("c14_cardano/compute_script_data_hash#reachable-panic", "compute_script_data_hash", format!("cost_models={models:?} with a mint redeemer"), format!("panic:{p}"), "Ok or Err"),
+                Ok(Ok(has)) => if !has || !models.contains(&2) { witness("c14_cardano/compute_script_data_hash#postcondition", "compute_script_data_hash", format!("cost_models={models:?} with a mint redeemer"), format!("Ok(script_data_hash present={has})"), "Ok with a hash iff the cost model of the language is known") },
+                Ok(Err(_)) => if models.contains(&2) { witness("c14_cardano/compute_script_data_hash#postcondition", "compute_script_data_hash", format!("cost_models={models:?} with a mint redeemer"), "Err".into(), "Ok when the cost model is present") },
+            }
+        }
         println!("VERIF-CASES fn=compute_script_data_hash n={n}");
+    }
+
+    // ---- C10 (reproducibility, no duplicates): required signers keep their template order and are compiled the same way every time
+    #[test]
+    fn compile_required_signers_deterministic() {
+        let mut n = 0;
+        let mut tx = empty_tx();
+        let keys: Vec<Vec<u8>> = (0..8u8).map(|i| vec![i.wrapping_mul(29).wrapping_add(3); 28]).collect();
+        tx.signers = Some(tir::Signers { signers: keys.iter().map(|k| tir::Expression::Bytes(k.clone())).collect() });
+        for _ in 0..17 {
+            n += 1;
+            match quiet(|| compile_required_signers(&tx).map(|s| s.map(|s| s.to_vec().iter().map(|h| h.to_vec()).collect::<Vec<_>>()))) {
+                Ok(Ok(Some(got))) => if got != keys { witness("c10_cardano/compile_required_signers#reproducible", "compile_required_signers", "8 signers".into(), "signers differ from the template order / between compilations".into(), "same template => the same signer list, in template order"); break; },
+                other => { witness("c10_cardano/compile_required_signers#postcondition", "compile_required_signers", "8 signers".into(), format!("{:?}", other.map(|x| x.map(|y| y.map(|z| z.len())))), "Ok(Some(8 signers))"); break; }
+            }
+        }
+        println!("VERIF-CASES fn=compile_required_signers n={n}");
+    }
+
+    // ---- C09: structural Plutus Data (the redeemer path `TryIntoData`): constructor index kept for every case (also
+    // field-less ones), fields / list items / map entries in template order, duplicates kept
+    #[test]
+    fn try_as_data_structural() {
+        use plutus_data::TryIntoData as _;
+        let mut n = 0;
+        let want_tag = |i: u64| -> (u64, Option<u64>) { if i <= 6 { (121 + i, None) } else if i <= 127 { (1280 + (i - 7), None) } else { (102, Some(i)) } };
+        for ctor in [0usize, 1, 2, 6, 7, 127, 128, 1 << 20] {
+            for fields in [vec![], vec![num(1)], vec![num(2), num(1)]] {
+                n += 1;
+                let s = tir::Expression::Struct(tir::StructExpr { constructor: ctor, fields: fields.clone() });
+                match quiet(|| s.try_as_data()) {
+                    Ok(Ok(primitives::PlutusData::Constr(c))) => {
+                        let got: Vec<String> = c.fields.iter().map(|f| format!("{f:?}")).collect();
+                        let exp: Vec<String> = fields.iter().map(|f| format!("{:?}", f.try_as_data().unwrap())).collect();
+                        if (c.tag, c.any_constructor) != want_tag(ctor as u64) || got != exp {
+                            witness("c09_cardano/StructExpr::try_as_data#postcondition", "try_as_data", format!("constructor={ctor} fields={}", fields.len()), format!("tag={} any={:?} fields={got:?}", c.tag, c.any_constructor), "constructor tag of the case index, fields in order");
+                        }
+                    }
+                    other => witness("c09_cardano/StructExpr::try_as_data#postcondition", "try_as_data", format!("constructor={ctor} fields={}", fields.len()), format!("{other:?}"), "a Constr"),
+                }
+            }
+        }
+        // map entries keep template order and duplicates
+        for pairs in [vec![(2i128, 20i128), (1, 10)], vec![(1, 10), (2, 20)], vec![(5, 1), (5, 2), (3, 0)]] {
+            n += 1;
+            let m = tir::Expression::Map(pairs.iter().map(|(k, v)| (num(*k), num(*v))).collect());
+            match quiet(|| m.try_as_data()) {
+                Ok(Ok(primitives::PlutusData::Map(kv))) => {
+                    let got: Vec<(String, String)> = kv.iter().map(|(k, v)| (format!("{k:?}"), format!("{v:?}"))).collect();
+                    let exp: Vec<(String, String)> = pairs.iter().map(|(k, v)| (format!("{:?}", num(*k).try_as_data().unwrap()), format!("{:?}", num(*v).try_as_data().unwrap()))).collect();
+                    if got != exp { witness("c09_cardano/Map::try_as_data#postcondition", "try_as_data", format!("map {pairs:?}"), format!("{} entries, order/duplicates changed", got.len()), "entries in template order, none dropped"); }
+                }
+                other => witness("c09_cardano/Map::try_as_data#postcondition", "try_as_data", format!("map {pairs:?}"), format!("{other:?}"), "a Map"),
+            }
+        }
+        // list items keep their order
+        n += 1;
+        let l = tir::Expression::List(vec![num(3), num(1), num(2)]);
+        if let Ok(Ok(primitives::PlutusData::Array(items))) = quiet(|| l.try_as_data()) {
+            let got: Vec<String> = items.iter().map(|f| format!("{f:?}")).collect();
+            let exp: Vec<String> = [3i128, 1, 2].iter().map(|x| format!("{:?}", num(*x).try_as_data().unwrap())).collect();
+            if got != exp { witness("c09_cardano/List::try_as_data#postcondition", "try_as_data", "list [3,1,2]".into(), format!("{got:?}"), "items in template order"); }
+        } else { witness("c09_cardano/List::try_as_data#postcondition", "try_as_data", "list [3,1,2]".into(), "not an array".into(), "an Array"); }
+        println!("VERIF-CASES fn=try_as_data n={n}");
     }
 
     // ---- C02 (value preservation): the mint field is the exact per-class sum of what is minted minus what is
